@@ -719,6 +719,7 @@ def _sos_strategy(draw, tier):
         # call patterns: every item read twice; a different hypothesis already written under the same name
         "reread": draw(st.booleans()),
         "overwrite": draw(st.booleans()),
+        "symbol_route": draw(st.sampled_from(["params", "params", "keywords", "sos_keyword", "eos_keyword"])),
     }
 
 
@@ -728,7 +729,7 @@ def _sos_strategy(draw, tier):
               "equals the bare tokens; tuple layout for every suppress_* combination; stored references also as "
               "views, 15..2049 tokens long, ids / symbols / boundaries beyond 32 bits; items read twice, an older "
               "hypothesis of the same name overwritten, the tensor handed to write_hyp left unchanged",
-          required_classes=["empty_ref_with_sos_or_eos", "symbol_id_zero", "dim_2", "dim_1", "lang", "spect", "tokens_only_2d",
+          required_classes=["empty_ref_with_sos_or_eos", "symbol_id_zero", "symbols_by_constructor_keyword", "dim_2", "dim_1", "lang", "spect", "tokens_only_2d",
                             "layout_offset", "layout_colslice", "layout_transposed", "layout_strided",
                             "tokens_only_2d_on_view", "long_ref", "long_ref_ge_1023", "wide_values", "reread",
                             "overwrite"])
@@ -774,11 +775,18 @@ def _sos_check(case):
         dirs.write_dir(data_dir, dcase)
         hyp_dir = os.path.join(root, "hyp")
         if case["kind"] == "spect":
-            params = data.SpectDataParams(sos=sos, eos=eos)
+            # how the symbols are configured: through the params object, through the (deprecated but supported)
+            # constructor keywords, or one each way
+            route = case.get("symbol_route", "params")
+            kw_sos = sos if route in ("keywords", "sos_keyword") else None
+            kw_eos = eos if route in ("keywords", "eos_keyword") else None
+            params = data.SpectDataParams(sos=None if kw_sos is not None else sos, eos=None if kw_eos is not None else eos)
+            if route != "params" and (kw_sos is not None or kw_eos is not None):
+                cl.append("symbols_by_constructor_keyword")
             with dirs.quiet():
                 ds = data.SpectDataSet(data_dir, file_prefix=case["prefix"], file_suffix=case["suffix"], params=params,
                                        suppress_alis=case["suppress_alis"], suppress_uttids=case["suppress_uttids"],
-                                       tokens_only=tokens_only)
+                                       tokens_only=tokens_only, sos=kw_sos, eos=kw_eos)
         else:
             params = data.LangDataParams(sos=sos, eos=eos)
             ds = data.LangDataSet(os.path.join(data_dir, "ref"), params, file_prefix=case["prefix"],
